@@ -1,0 +1,49 @@
+//go:build verif
+
+package memefish
+
+import "sync/atomic"
+
+// This file is compiled only with the "verif" build tag.
+// It exposes observation points for external runtime monitors and changes no behaviour
+// unless a monitor explicitly sets a step budget.
+
+var (
+	verifBudget atomic.Int64
+	verifCount  atomic.Int64
+)
+
+// VerifStepBudgetExceeded is the panic value raised when the step budget set by VerifSetBudget is exhausted.
+type VerifStepBudgetExceeded struct{ Steps int64 }
+
+// VerifSetBudget resets the token-fetch counter and sets the budget (0 disables counting).
+func VerifSetBudget(n int64) {
+	verifCount.Store(0)
+	verifBudget.Store(n)
+}
+
+// VerifSteps returns the number of token fetches since the last VerifSetBudget call with a non-zero budget.
+func VerifSteps() int64 { return verifCount.Load() }
+
+func verifStep() {
+	b := verifBudget.Load()
+	if b == 0 {
+		return
+	}
+	if n := verifCount.Add(1); n > b {
+		verifBudget.Store(0)
+		panic(VerifStepBudgetExceeded{Steps: n})
+	}
+}
+
+// VerifNextTokenRecover reads a next token with the error-recovery mode lexer (it never panics on lexical errors).
+func (l *Lexer) VerifNextTokenRecover() { l.nextToken(true) }
+
+// VerifTables returns copies of the package-level tables used by the parser.
+func VerifTables() map[string][]string {
+	return map[string][]string{
+		"simpleTypes":       append([]string(nil), simpleTypes...),
+		"scalarSchemaTypes": append([]string(nil), scalarSchemaTypes...),
+		"sizedSchemaTypes":  append([]string(nil), sizedSchemaTypes...),
+	}
+}
